@@ -2751,10 +2751,12 @@ func deserialize_vector_CompiledInstruction(deserializer serde.Deserializer) ([]
 	if err != nil {
 		return nil, err
 	}
-	obj := make([]CompiledInstruction, length)
-	for i := range obj {
+	// length comes from the input: grow the slice as elements are actually read
+	// instead of allocating for a length that the input may not hold.
+	obj := make([]CompiledInstruction, 0, minUint64(length, maxPreallocatedElements))
+	for i := uint64(0); i < length; i++ {
 		if val, err := DeserializeCompiledInstruction(deserializer); err == nil {
-			obj[i] = val
+			obj = append(obj, val)
 		} else {
 			return nil, err
 		}
@@ -2779,10 +2781,12 @@ func deserialize_vector_InnerInstructions(deserializer serde.Deserializer) ([]In
 	if err != nil {
 		return nil, err
 	}
-	obj := make([]InnerInstructions, length)
-	for i := range obj {
+	// length comes from the input: grow the slice as elements are actually read
+	// instead of allocating for a length that the input may not hold.
+	obj := make([]InnerInstructions, 0, minUint64(length, maxPreallocatedElements))
+	for i := uint64(0); i < length; i++ {
 		if val, err := DeserializeInnerInstructions(deserializer); err == nil {
-			obj[i] = val
+			obj = append(obj, val)
 		} else {
 			return nil, err
 		}
@@ -2807,13 +2811,25 @@ func deserialize_vector_u64(deserializer serde.Deserializer) ([]uint64, error) {
 	if err != nil {
 		return nil, err
 	}
-	obj := make([]uint64, length)
-	for i := range obj {
+	// length comes from the input: grow the slice as elements are actually read
+	// instead of allocating for a length that the input may not hold.
+	obj := make([]uint64, 0, minUint64(length, maxPreallocatedElements))
+	for i := uint64(0); i < length; i++ {
 		if val, err := deserializer.DeserializeU64(); err == nil {
-			obj[i] = val
+			obj = append(obj, val)
 		} else {
 			return nil, err
 		}
 	}
 	return obj, nil
+}
+
+// maxPreallocatedElements bounds the capacity reserved for a vector before its elements were read.
+const maxPreallocatedElements = 1024
+
+func minUint64(a, b uint64) uint64 {
+	if a < b {
+		return a
+	}
+	return b
 }
